@@ -1,6 +1,6 @@
 use alloc::vec;
 use alloc::vec::Vec;
-use cobs::{decode, encode, max_encoding_length};
+use cobs::{encode, max_encoding_length, CobsDecoder};
 
 use bxcan::{Data, ExtendedId, Frame as BxFrame, Id};
 
@@ -157,10 +157,22 @@ impl Frame {
     /// bytes 5 - 12:   DATA (frame data)
     pub fn from_usart_frame(encoded: Vec<u8>) -> Result<Self, FrameError> {
         let mut frame = vec![0; encoded.len()];
-        match decode(&encoded[..], &mut frame[..]) {
-            Ok(n) => frame.truncate(n),
-            Err(_) => return Err(FrameError::CobsError),
-        }
+        let decoded_len = {
+            let mut decoder = CobsDecoder::new(&mut frame[..]);
+
+            // The body must not contain a complete message before its end
+            match decoder.push(&encoded[..]) {
+                Ok(None) => {}
+                _ => return Err(FrameError::CobsError),
+            }
+
+            // Explicitly push the terminator
+            match decoder.feed(0x00) {
+                Ok(Some(n)) => n,
+                _ => return Err(FrameError::CobsError),
+            }
+        };
+        frame.truncate(decoded_len);
 
         if frame.len() < 5 || frame.len() != frame[4] as usize + 5 {
             return Err(FrameError::WrongSize);
